@@ -628,7 +628,8 @@ func (gw *GlobalWindow) getKeyAndValues(data map[string]any) (string, map[string
 	values := make(map[string]any, len(gw.groupByKeys))
 	for _, k := range gw.groupByKeys {
 		var val any
-		if fieldpath.IsNestedField(k) {
+		// a function key (upper(d.name)) is not a path: its value is stored under the key text
+		if fieldpath.IsNestedField(k) && !strings.Contains(k, "(") {
 			val, _ = fieldpath.GetNestedField(data, k)
 		} else if v.IsValid() && v.Kind() == reflect.Map && v.Type().Key().Kind() == reflect.String {
 			if mv := v.MapIndex(reflect.ValueOf(k)); mv.IsValid() {
